@@ -954,7 +954,11 @@ func (c *Conn) writeFrame(messageType MessageType, sendOpcode, fin bool, data []
 	}
 
 	if c.sendQueue != nil {
-		if c.sendQueueSize > 0 && len(c.sendQueue) >= int(c.sendQueueSize) {
+		// A full queue refuses a message at its first frame only: the frames
+		// that continue a fragmented message must follow the ones already
+		// queued or written, or the peer finds the next message inside an
+		// unfinished one and fails the connection.
+		if c.sendQueueSize > 0 && sendOpcode && len(c.sendQueue) >= int(c.sendQueueSize) {
 			c.Engine.BodyAllocator.Free(pbuf)
 			return ErrMessageSendQuqueIsFull
 		}
